@@ -22,7 +22,7 @@ func init() {
 		var li lexInput
 		var pi posInput
 		switch {
-		case strings.HasPrefix(v.Sub, "tok-") || v.Sub == "lex-chars" || v.Sub == "lex-escapes" || v.Sub == "block-bodies" || v.Sub == "block-bodies-invalid" || v.Sub == "ignored-gaps":
+		case strings.HasPrefix(v.Sub, "tok-") || v.Sub == "lex-chars" || v.Sub == "lex-escapes" || v.Sub == "block-bodies" || v.Sub == "block-bodies-invalid" || v.Sub == "block-lines" || v.Sub == "ignored-gaps":
 			if json.Unmarshal(v.Input, &li) == nil {
 				lexCase(c, s, li.Text, false, true)
 			}
